@@ -7,6 +7,7 @@
 import Model.Convert
 import Lemmas.Convert
 import Lemmas.Construct
+import Lemmas.ConvertFields
 
 namespace DI.C13
 
@@ -40,5 +41,115 @@ theorem dtype_comes_back :
     construct [.none, .str false] = some { dclass := .str, na := [true, false] } ∧
     construct [.bool, .bool] = some { dclass := .bool, na := [false, false] } ∧
     construct [.int, .int] = some { dclass := .int, na := [false, false] } := by decide
+
+/-! ### round 3: field level, the empty frame, heterogeneous records, the dtype that comes back -/
+
+/-- `to_records`, field by field: for every row `i < n` the record exists; its keys are exactly
+    the column names in column order; the value under a column's name is that column's value in
+    row `i` (`none` where missing); no other name is a key. -/
+theorem to_records_fields {β : Type} (cols : List (Col β)) (n i : Nat) (hi : i < n)
+    (hnd : (cols.map (·.1)).Nodup) :
+    ∃ r, (toRecords cols n)[i]? = some r ∧
+      r = cols.map (fun c => (c.1, (c.2[i]?).join)) ∧
+      r.map (·.1) = cols.map (·.1) ∧
+      (∀ c ∈ cols, lookup r c.1 = some ((c.2[i]?).join)) ∧
+      (∀ k, k ∉ cols.map (·.1) → lookup r k = none) := toRecords_fields_full cols n i hi hnd
+
+/-- there are exactly `n` records: none beyond the last row. -/
+theorem to_records_no_extra {β : Type} (cols : List (Col β)) (n i : Nat) (hi : n ≤ i) :
+    (toRecords cols n)[i]? = none := toRecords_out_of_range cols n i hi
+
+/-- `from_records (to_records cols n) = cols` (names, ORDER, values, NA positions) holds exactly
+    for a non-empty frame — or one that has no column to lose ... -/
+theorem list_of_dicts_roundtrip_iff {β : Type} (cols : List (Col β)) (n : Nat)
+    (hnd : (cols.map (·.1)).Nodup) (hlen : ∀ c ∈ cols, c.2.length = n) :
+    toColumns (toRecords cols n) = cols ↔ (0 < n ∨ cols = []) := lod_roundtrip_iff cols n hnd hlen
+
+theorem json_records_roundtrip_iff {β : Type} (cols : List (Col β)) (n : Nat)
+    (hnd : (cols.map (·.1)).Nodup) (hlen : ∀ c ∈ cols, c.2.length = n) :
+    fromJsonRecords (toRecords cols n) = cols ↔ (0 < n ∨ cols = []) := json_roundtrip_iff cols n hnd hlen
+
+/-- ... and for `n = 0` what is lost is everything: there is no record, so no column (name or
+    dtype) comes back on either route. -/
+theorem empty_frame_loses_all_columns {β : Type} (cols : List (Col β)) :
+    toRecords cols 0 = [] ∧ toColumns (toRecords cols 0) = [] ∧ fromJsonRecords (toRecords cols 0) = [] := by
+  rw [toRecords_zero]
+  exact ⟨rfl, rfl, fromJsonRecords_nil⟩
+
+/-- JSON route, heterogeneous key sets: one column per key in order of first appearance (every key
+    once; `k1` left of `k2` iff first seen earlier); one cell per record: `none` where the record
+    lacks the key. -/
+theorem from_json_heterogeneous {β : Type} (recs : List (Rec (Option β))) :
+    (fromJsonRecords recs).map (·.1) = (allKeys recs).eraseDups ∧
+    ((allKeys recs).eraseDups).Nodup ∧
+    (∀ k, k ∈ (allKeys recs).eraseDups ↔ ∃ r ∈ recs, k ∈ r.map (·.1)) ∧
+    (∀ k1 k2, (List.idxOf k1 (allKeys recs).eraseDups < List.idxOf k2 (allKeys recs).eraseDups) ↔
+        (List.idxOf k1 (allKeys recs) < List.idxOf k2 (allKeys recs))) ∧
+    (∀ c ∈ fromJsonRecords recs, c.2.length = recs.length ∧
+      ∀ i (h : i < recs.length), c.2[i]? = some ((lookup recs[i] c.1).join) ∧
+        (c.1 ∉ recs[i].map (·.1) → c.2[i]? = some none)) := fromJsonRecords_full recs
+
+/-- `fill_missing_keys()` gives every item every key of the union (missing ones as `None`, after
+    its own keys, in union order) and is invisible to `from_json` ... -/
+theorem fill_missing_keys_spec {β : Type} (recs : List (Rec (Option β))) :
+    (∀ r ∈ fillMissingKeys recs, ∀ k ∈ unionKeys recs, k ∈ r.map (·.1)) ∧
+    (∀ i (h : i < recs.length), ((fillMissingKeys recs)[i]'(by simpa [fillMissingKeys] using h)).map (·.1) =
+      recs[i].map (·.1) ++ (unionKeys recs).filter (fun k => !(recs[i].map (·.1)).contains k)) ∧
+    (∀ k, pluck (fillMissingKeys recs) k = pluck recs k) ∧
+    fromJsonRecords (fillMissingKeys recs) = fromJsonRecords recs :=
+  ⟨fill_has_all recs, fill_keys recs, pluck_fill recs, fromJson_fill recs⟩
+
+/-- ... and `from_json` = `fill_missing_keys()` then `to_data_frame()` (keys of the first item):
+    same columns, same order, same cells. -/
+theorem from_json_is_fill_then_to_data_frame {β : Type} (recs : List (Rec (Option β))) (hne : recs ≠ [])
+    (hnd : ∀ r ∈ recs.head?, (r.map (·.1)).Nodup) :
+    toColumns (fillMissingKeys recs) = fromJsonRecords recs := fromJson_eq_fill_toColumns recs hne hnd
+
+/-- without `fill_missing_keys`, `to_data_frame` sees only the keys of the first item. -/
+theorem to_data_frame_unfilled_counterexample :
+    toColumns [[("a", some "1")], [("a", some "2"), ("b", some "3")]] = [("a", [some "1", some "2"])] ∧
+    fromJsonRecords [[("a", some "1")], [("a", some "2"), ("b", some "3")]] =
+      [("a", [some "1", some "2"]), ("b", [none, some "3"])] := by decide
+
+/-- `dtype_comes_back`, for every column: if all non-missing values have JSON scalar kind `K`
+    (bool / int / float / str) and at least one is present, `Vector(list)` gives class
+    `backClass K anyMissing` — K itself, except int -> float and bool -> object when a value is
+    missing — and flags exactly the missing positions (and `""` in a str column). -/
+theorem dtype_comes_back_general (K : JKind) (xs : List Kind) (h : ∀ x ∈ xs, x.missing = true ∨ K.has x = true)
+    (hne : ∃ x ∈ xs, x.missing = false) :
+    construct xs = some { dclass := backClass K (xs.any (·.missing)),
+                          na := xs.map (fun x => x.missing || isSentinel (backClass K (xs.any (·.missing))) x) } :=
+  construct_oneKind K xs h hne
+
+/-- exact: the column comes back with its own class K iff K is float or str (which hold their own
+    missing value) or no value is missing. -/
+theorem dtype_comes_back_iff (K : JKind) (xs : List Kind) (h : ∀ x ∈ xs, x.missing = true ∨ K.has x = true)
+    (hne : ∃ x ∈ xs, x.missing = false) :
+    (construct xs).map (·.dclass) = some K.dclass ↔ (K = .float ∨ K = .str ∨ xs.any (·.missing) = false) :=
+  class_comes_back_iff K xs h hne
+
+/-- the mask that comes back. -/
+theorem na_mask_comes_back (K : JKind) (xs : List Kind) (h : ∀ x ∈ xs, x.missing = true ∨ K.has x = true)
+    (hne : ∃ x ∈ xs, x.missing = false) :
+    (construct xs).map (·.na) = some (xs.map (fun x => x.missing || (K == .str && x == Kind.str true))) :=
+  mask_comes_back K xs h hne
+
+/-- all values missing: the class is "unknown" = object (float for a column without rows), every
+    position missing; so the original class is NOT recovered from an all-missing column. -/
+theorem dtype_all_missing (xs : List Kind) (h : ∀ x ∈ xs, x.missing = true) :
+    construct xs = some { dclass := if xs.isEmpty then DClass.float else DClass.object, na := xs.map (fun _ => true) } ∧
+    ((construct xs).map (·.dclass) = some DClass.object ↔ xs ≠ []) ∧
+    ((construct xs).map (·.dclass) = some DClass.float ↔ xs = []) :=
+  ⟨construct_allMissing xs h, class_unknown_iff xs h⟩
+
+/-- the two classes that do not survive a missing value. -/
+theorem dtype_widening_counterexample :
+    construct [.int, .none] = some { dclass := .float, na := [false, true] } ∧
+    construct [.bool, .none] = some { dclass := .object, na := [false, true] } ∧
+    construct [.none, .none] = some { dclass := .object, na := [true, true] } := by decide
+
+example : ∃ r, (toRecords [("a", [some 1, none]), ("b", [none, some 2])] 2)[1]? = some r ∧
+    r = [("a", none), ("b", some 2)] := ⟨_, by decide, rfl⟩
+example : construct [.str false, .none, .str true] = some { dclass := .str, na := [false, true, true] } := by decide
 
 end DI.C13
